@@ -43,18 +43,30 @@ impl PidAllocator {
     }
 
     pub fn allocate(&self) -> Result<ExternalPid> {
+        #[cfg(edp_rs_verif)]
+        crate::verif::lock_probe("pid.blocked", &self.wrap_lock);
         let _guard = self.wrap_lock.lock().map_err(|e| {
             Error::InvalidStateMessage(format!("PID allocator lock poisoned: {}", e))
         })?;
+        #[cfg(edp_rs_verif)]
+        crate::verif::sync_point("pid.locked", 0, 0);
 
         let id = self.next_id.load(Ordering::Relaxed);
+        #[cfg(edp_rs_verif)]
+        crate::verif::sync_point("pid.loaded_id", id as u64, 0);
         let serial_u64 = self.next_serial.load(Ordering::Relaxed);
         let serial = (serial_u64 % (u32::MAX as u64 + 1)) as u32;
+        #[cfg(edp_rs_verif)]
+        crate::verif::sync_point("pid.loaded_serial", id as u64, serial_u64);
 
         let next_id = id + 1;
         if id >= MAX_PROCESSES_PER_NODE {
             self.next_id.store(1, Ordering::Relaxed);
+            #[cfg(edp_rs_verif)]
+            crate::verif::sync_point("pid.stored_one", id as u64, 0);
             let new_serial = self.next_serial.fetch_add(1, Ordering::Relaxed) + 1;
+            #[cfg(edp_rs_verif)]
+            crate::verif::sync_point("pid.bumped_serial", id as u64, new_serial);
             let wrapped_serial = (new_serial % (u32::MAX as u64 + 1)) as u32;
 
             Ok(ExternalPid::new(
@@ -65,6 +77,8 @@ impl PidAllocator {
             ))
         } else {
             self.next_id.store(next_id, Ordering::Relaxed);
+            #[cfg(edp_rs_verif)]
+            crate::verif::sync_point("pid.stored_next", id as u64, next_id as u64);
 
             Ok(ExternalPid::new(
                 self.node_name.clone(),
